@@ -108,16 +108,24 @@ CHECKS = {
 
 # extensions made after the seeded rounds (appended to the level text of the property)
 ADDED = {
- "C04": " Since the third seeded round is_bus_day / is_settlement are no longer trusted: both are re-derived from the calendar's parts (week masks, holiday lists, the split name) and compared on every date between input and result.",
- "C05": " The eligibility predicates are re-derived from the calendar's parts on the fortnight around each start date.",
+ "C04": " Holiday runs include whole months and closures of 100-160 days. Since the third seeded round is_bus_day / is_settlement are no longer trusted: both are re-derived from the calendar's parts (week masks, holiday lists, the split name) and compared on every date between input and result.",
+ "C05": " Holiday runs include whole months and closures of 100-160 days. The eligibility predicates are re-derived from the calendar's parts on the fortnight around each start date.",
+ "C01": " Variable names include pairs differing in letter case only; padded leaves may hold their arrays in reversed memory order.",
+ "C02": " Variable names include pairs differing in letter case only; padded leaves may hold their arrays in reversed memory order.",
+ "C03": " The 4-name universe contains a case-twin pair; a quarter of the random cases hold operand arrays in reversed memory order; a wide stage uses 20-70 of 100 names per operand (unions beyond 64).",
+ "C06": " Equality pairs include a masked weekday expressed as the list of all its dates.",
+ "C08": " Every add_months case is repeated with a time of day on the start date.",
+ "C12": " A fifth of the curves have flat sections (equal neighbouring node values), some are all ones.",
+ "C17": " A wide stage stores 17-40 of 100 names with requests differing among the early names.",
+ "C18": " First-order / second-order pairs derived from one another (shared storage) must be refused too.",
  "C09": " The re-based twin market spells every occurrence of a currency code in its own mix of upper and lower case.",
- "C10": " 20% of update items re-quote a pair at its current value (only the number kind / own variables change).",
- "C11": " The generic constructor is fed float, first-order and second-order node values.",
- "C13": " A and b are handed over as row-major, column-major or strided views; least squares is also allowed on square systems; whole systems are scaled by exact powers of two (2^+-35..70) in 25% of draws.",
- "C14": " 40% of the knot sequences are scaled by 2^-70..-30 or 2^20..40; the vectorised entry points PPSpline::bspldnev / bsplmatrix are compared with the scalar functions.",
- "C15": " Also: basis functions at dual abscissae through the four public dual entry points, dual data x dual abscissa for m = 0 and 1 with mixed second-order terms, re-solving an object (history independence), too few sites with least squares allowed, and a scale-covariance relation (the problem re-solved on a domain multiplied by 2^-70..-30 / 2^20..40).",
- "C16": " FX markets are saved freshly built or after 1-2 quote updates.",
- "C19": " Comparisons also through the Number container in six operand positions and on pairs of special floats (signed zeros, NaN, infinities, neighbouring doubles, subnormals).",
+ "C10": " 20% of update items re-quote a pair at its current value (only the number kind / own variables change); refused updates include a quoted pair with another settlement date.",
+ "C11": " The generic constructor is fed float, first-order and second-order node values; a fifth of the curves have flat sections, some are all ones.",
+ "C13": " A and b are handed over as row-major, column-major or strided views; least squares is also allowed on square systems; whole systems are scaled by exact powers of two (2^+-35..70) in 25% of draws; a fifth of the systems have small integer entries (exact pivot ties).",
+ "C14": " 40% of the knot sequences are scaled by 2^-70..-30 or 2^20..40; the vectorised entry points PPSpline::bspldnev / bsplmatrix are compared with the scalar functions; 2.5% of the sequences have 64-190 knots.",
+ "C15": " Also: basis functions at dual abscissae through the four public dual entry points, dual data x dual abscissa for m = 0 and 1 with mixed second-order terms, re-solving an object (history independence), too few sites with least squares allowed, a scale-covariance relation (the problem re-solved on a domain multiplied by 2^-70..-30 / 2^20..40), and interior data sites listed in another order.",
+ "C16": " FX markets are saved freshly built or after 1-2 quote updates; settlement date-times carry sub-second parts.",
+ "C19": " Comparisons also through the Number container in six operand positions and on pairs of special floats (signed zeros, NaN, infinities, neighbouring doubles, subnormals); sums through five kinds of iterator.",
  "C20": " Documents are also mutated by re-shaping a serialised array (same element count); add_bus_days is held to its error contract (error iff non-business start).",
 }
 
